@@ -106,3 +106,31 @@ func (mc *memberCore) shouldAcceptMessage(
 
 	return !isMessageFromSelf && isSenderValid && isSenderAccepted
 }
+
+// shouldAcceptAccusationMessage indicates whether the given member should
+// accept an accusation message from the given sender. Accusation messages
+// are broadcast in the same protocol state in which the receiving member
+// disqualifies the members that misbehaved against it. Such a member may have
+// sent an accusation every other member acts on, so the sender is checked
+// against the members operating when the state began and not against the
+// current view, as shouldAcceptMessage does.
+func (mc *memberCore) shouldAcceptAccusationMessage(
+	senderID group.MemberIndex,
+	senderPublicKey []byte,
+	operatingAtStateStart []group.MemberIndex,
+) bool {
+	isMessageFromSelf := senderID == mc.ID
+	isSenderValid := mc.membershipValidator.IsValidMembership(
+		senderID,
+		senderPublicKey,
+	)
+	isSenderAccepted := false
+	for _, operatingMemberID := range operatingAtStateStart {
+		if operatingMemberID == senderID {
+			isSenderAccepted = true
+			break
+		}
+	}
+
+	return !isMessageFromSelf && isSenderValid && isSenderAccepted
+}
